@@ -18,14 +18,14 @@ RULE = ("Hypothesis: arbitrary relative message lists (<= 24 messages) over 2 ch
         "contains a re-trigger, nested pair, orphan off, unclosed on or repeated signature. Distinct by case digest.")
 ASSUMPTIONS = ["which velocity a fused note keeps is not part of the statement",
                "non-note, non-signature events are not generated (their treatment is not part of the statement)"]
-TIERS = {"quick": dict(shards=8, examples=2500), "thorough": dict(shards=16, examples=30000)}
+TIERS = {"quick": dict(shards=8, examples=2500), "thorough": dict(size=2, shards=16, examples=30000)}
 
 PITCHES = [0, 1, 60, 61]
 
 
 @st.composite
-def _case(draw):
-    n = draw(st.integers(0, 24))
+def _case(draw, size=1):
+    n = draw(st.integers(0, 24 * size))
     msg = st.one_of(
         st.tuples(st.just("w"), st.integers(1, 12)),
         st.tuples(st.just("on"), st.integers(0, 1), st.sampled_from(PITCHES), st.integers(1, 127)),
@@ -60,7 +60,8 @@ def _case(draw):
 
 
 def strategy(params, shard, nshards):
-    return _case()
+    # thorough tier: odd shards draw larger cases (size 2), even shards keep the small, dense ones
+    return _case(size=params.get("size", 1) if shard % 2 else 1)
 
 
 def _build(msgs):
